@@ -233,7 +233,7 @@ func New(base int64, keys [][]byte, initial [][][]byte) *Source {
 	s := &Source{Id1: "A", Base: base, Keys: keys, Initial: initial}
 	s.Cond = sync.NewCond(&s.Mu)
 	s.Bl = base + 1
-	ln, err := net.Listen("tcp", "127.0.0.1:0")
+	ln, err := hx.Listen()
 	if err != nil {
 		hx.Fatal("%v", err)
 	}
